@@ -164,6 +164,9 @@ func getRanger(v reflect.Value) (r Ranger, cleanup func(), err error) {
 	}
 	t := v.Type()
 	if t.Implements(rangerType) {
+		if v.Kind() == reflect.Interface && v.IsNil() {
+			return nil, nil, fmt.Errorf("cannot range over nil pointer/interface (%s)", t)
+		}
 		return v.Interface().(Ranger), func() { /* no cleanup needed */ }, nil
 	}
 
@@ -173,7 +176,8 @@ func getRanger(v reflect.Value) (r Ranger, cleanup func(), err error) {
 	}
 
 	pool, ok := poolsByKind[v.Kind()]
-	if !ok {
+	if !ok || (v.Kind() == reflect.Chan && v.Type().ChanDir() == reflect.SendDir) {
+		// (a channel that can only be sent to has nothing to offer)
 		return nil, nil, fmt.Errorf("value %v (type %s) is not rangeable", v, t)
 	}
 
